@@ -622,3 +622,55 @@ Proof.
   rewrite <- N.lxor_lor by exact L. rewrite <- N.add_nocarry_lxor by exact L.
   rewrite N.shiftl_mul_pow2. change (2 ^ 8)%N with 256%N. lia.
 Qed.
+
+(** ** DevOutThread.run over schedules with empty reads (None / b'') *)
+
+Lemma run_loop_run parse reads : forall st,
+  run_loop parse st reads = run parse st (chunks_of reads).
+Proof.
+  induction reads as [|r rs IH]; intros st; [reflexivity|].
+  destruct st as [buf|].
+  2: { cbn [run_loop]. symmetry. apply run_dead. }
+  destruct r as [b|].
+  - change (chunks_of (Some b :: rs)) with (b :: chunks_of rs).
+    cbn [run_loop run_step run].
+    destruct (ingest parse (Live buf) b) as [o1 st1|]; [|reflexivity].
+    rewrite IH. reflexivity.
+  - change (chunks_of (None :: rs)) with (chunks_of rs).
+    cbn [run_loop run_step]. rewrite IH.
+    destruct (run parse (Live buf) (chunks_of rs)); reflexivity.
+Qed.
+
+Theorem run_loop_refines_deliver parse reads :
+  observe (run_loop parse (Live []) reads)
+  = Some (dispatch parse (deliver (concat (chunks_of reads)))).
+Proof. rewrite run_loop_run. apply ingest_refines_deliver. Qed.
+
+Lemma concat_nonempty (l : list bytes) :
+  concat (filter (fun b => negb (length b =? 0)) l) = concat l.
+Proof.
+  induction l as [|b l IH]; [reflexivity|].
+  cbn [filter concat]. destruct b as [|x b]; cbn [length Nat.eqb negb]; [exact IH|].
+  cbn [concat]. rewrite IH. reflexivity.
+Qed.
+
+(** Reads that return None or b'' are no-ops: two schedules carrying the same non-empty
+    chunks are indistinguishable ... *)
+Theorem empty_reads_noop parse reads1 reads2 :
+  nonempty_data reads1 = nonempty_data reads2 ->
+  observe (run_loop parse (Live []) reads1) = observe (run_loop parse (Live []) reads2).
+Proof.
+  intros H. rewrite !run_loop_refines_deliver.
+  rewrite <- (concat_nonempty (chunks_of reads1)), <- (concat_nonempty (chunks_of reads2)).
+  unfold nonempty_data in H. rewrite H. reflexivity.
+Qed.
+
+(** ... and equal to the plain chunk list without the empty reads. *)
+Theorem run_loop_insert_empties parse chunks reads :
+  nonempty_data reads = filter (fun b => negb (length b =? 0)) chunks ->
+  observe (run_loop parse (Live []) reads) = observe (run parse (Live []) chunks).
+Proof.
+  intros H. rewrite run_loop_refines_deliver, ingest_refines_deliver.
+  rewrite <- (concat_nonempty (chunks_of reads)), <- (concat_nonempty chunks).
+  unfold nonempty_data in H. rewrite H. reflexivity.
+Qed.
